@@ -335,6 +335,11 @@ func (f *frame) pureCall(in *ssa.Call) {
 					if len(bvs) == 1 && !x.X.bvMode && q == "forall" {
 						// alternative trigger: every index term the code itself uses
 						x.X.declare("idxmark", "(declare-fun idxmark (Int) Bool)")
+						if x.fcOpt("triggers") == "idxmark" {
+							// `opt triggers idxmark`: only that trigger (the array-read patterns can make
+							// the solvers instantiate far more than the function's own indices need)
+							ann = ""
+						}
 						ann += " :pattern ((idxmark " + bvs[0] + "))"
 					}
 					bt = "(! " + bt + ann + ")"
